@@ -43,6 +43,8 @@ def run(prop, tier, seed, rule, assumptions, shards=4, isolate=False, fields=Tru
     vec = generate(ck, prop, tier, seed, fields=fields)
     if extra_vec:
         extra_vec(ck, vec)
+    kept, total = vlib.cap_vectors(vec, 400000 if tier == "thorough" else 60000, seed, keep_first=1600)
+    ck.notes["vectors_generated"], ck.notes["vectors_replayed"] = total, kept
     ck.binary = vlib.build_harness()
     rr = vlib.run_harness(ck.binary, prop, vec, seed=seed, tier=tier, shards=shards, timeout=timeout, isolate=isolate)
     os.unlink(vec)
@@ -51,7 +53,7 @@ def run(prop, tier, seed, rule, assumptions, shards=4, isolate=False, fields=Tru
         ck.violations.append(({"t": "div", "prop": prop, "api": "process", "want": "no fatal error",
                                "got": "fatal: " + cr["stderr"][:400], "case": {"vector_index": cr["index"]}}, 1))
     ck.triage(rr.divs)
-    ck.exhaustive = True
+    ck.exhaustive = kept == total
     ck.rule = rule
     ck.assumptions = assumptions
     return ck.finish()
